@@ -233,3 +233,360 @@ def trr_write_foreign(path, xyz_nm, box_nm=None, times=None, double=True, veloci
             out.append((-x[k] * 3.0 - 2000.0 - k).astype(real).tobytes())
     with open(path, "wb") as f:
         f.write(b"".join(out))
+
+
+# ------------------------------------------------------------------------------------------------------------------
+# (round-5 widening, C01/C02/C18/C19)  More files as OTHER programs write them, valid by each format's own documentation
+# but never produced by mdtraj's writers.  All take coordinates in nm (frames that identify themselves) and write the
+# format's native unit.
+def lammpstrj_write_foreign(path, xyz_nm, style="tric-shuffled"):
+    """LAMMPS `dump custom` output.  style 'ortho-vel': orthogonal box, columns `id type x y z vx vy vz`, atoms in id order;
+    style 'tric-shuffled': triclinic box (`xy xz yz` bounds with tilt factors that change along the run), columns
+    `type id mol q xu yu zu ix iy iz` (id not first, extra columns, unwrapped coordinate keywords), atoms in a different
+    order in every frame (LAMMPS does not sort a dump unless asked to), time steps 0, 500, 1000, ..."""
+    x = np.asarray(xyz_nm, np.float64) * 10.0
+    nf, na = x.shape[:2]
+    rng = np.random.default_rng(20240517)
+    with open(path, "w") as f:
+        for k in range(nf):
+            f.write("ITEM: TIMESTEP\n%d\n" % (k * 500))
+            f.write("ITEM: NUMBER OF ATOMS\n%d\n" % na)
+            if style == "ortho-vel":
+                f.write("ITEM: BOX BOUNDS pp pp pp\n")
+                for d in range(3):
+                    f.write("%.16e %.16e\n" % (-500.0 - d, 700.0 + d + 1.25 * k))
+                f.write("ITEM: ATOMS id type x y z vx vy vz\n")
+                for a in range(na):
+                    f.write("%d %d %.6f %.6f %.6f %g %g %g\n" % (a + 1, 1 + a % 3, x[k, a, 0], x[k, a, 1], x[k, a, 2], 0.001 * a, -0.5, 1e-5 * k))
+            else:
+                lx, ly, lz = 900.0 + 1.25 * k, 910.0, 920.0
+                xy, xz, yz = 55.0, -40.0 + 0.5 * (k % 7), 30.0
+                xlo, ylo, zlo = -450.0, -455.0, -460.0
+                f.write("ITEM: BOX BOUNDS xy xz yz pp pp pp\n")
+                f.write("%.16e %.16e %.16e\n" % (xlo + min(0.0, xy, xz, xy + xz), xlo + lx + max(0.0, xy, xz, xy + xz), xy))
+                f.write("%.16e %.16e %.16e\n" % (ylo + min(0.0, yz), ylo + ly + max(0.0, yz), xz))
+                f.write("%.16e %.16e %.16e\n" % (zlo, zlo + lz, yz))
+                f.write("ITEM: ATOMS type id mol q xu yu zu ix iy iz\n")
+                for a in rng.permutation(na):
+                    f.write("%d %d %d %.4f %.6f %.6f %.6f %d %d %d\n" % (1 + a % 3, a + 1, 1 + a // 3, -0.5 + 0.1 * (a % 5), x[k, a, 0], x[k, a, 1], x[k, a, 2], 0, -1, 2))
+
+
+def xyz_write_extended(path, xyz_nm):
+    """'Extended XYZ' as ASE / OVITO / QUIP write it: right-aligned count line, a key=value comment line (Lattice=, Properties=,
+    Time=), element symbols, tab / multi-blank separated columns and further per-atom columns after z (charge, an integer
+    tag, forces) — mdtraj documents that 'anything past the z field is ignored'."""
+    x = np.asarray(xyz_nm, np.float64) * 10.0
+    nf, na = x.shape[:2]
+    sym = ["C", "N", "O", "Cl", "H"]
+    opener = gzip_open if str(path).endswith(".gz") else open
+    with opener(path, "wt") as f:
+        for k in range(nf):
+            f.write("%8d\n" % na)
+            f.write('Lattice="%.3f 0.0 0.0 0.0 %.3f 0.0 0.0 0.0 %.3f" Properties=species:S:1:pos:R:3:charge:R:1:tag:I:1:forces:R:3 Time=%.4f pbc="T T T"\n'
+                    % (600.0 + k, 610.0, 620.0, 0.5 * k))
+            for a in range(na):
+                f.write("%-2s\t%16.8f  %16.8f\t%16.8f   %8.4f %3d %12.5e %12.5e %12.5e\n"
+                        % (sym[a % 5], x[k, a, 0], x[k, a, 1], x[k, a, 2], -0.4 + 0.05 * a, a % 4, 1e3 + a, -2e3 - k, 3.5e-3))
+
+
+def gzip_open(path, mode):
+    import gzip
+    return gzip.open(path, mode)
+
+
+def nc_write_amber(path, xyz_nm, times, lengths_nm=None, angles=None, real="f4"):
+    """AMBER NetCDF trajectory as sander / pmemd / cpptraj write it (AMBER NetCDF convention 1.0): besides coordinates, time
+    and the cell it carries `velocities` (with the convention's scale_factor 20.455), `forces` and the replica temperature
+    `temp0`; frames are appended one record at a time, so the record variables are interleaved on disk.  real="f8" stores
+    coordinates and time as doubles (some converters do; netCDF readers hand back float64 arrays then)."""
+    import netCDF4
+    x = np.asarray(xyz_nm, np.float64) * 10.0
+    nf, na = x.shape[:2]
+    ds = netCDF4.Dataset(path, "w", format="NETCDF3_64BIT_OFFSET")
+    try:
+        ds.Conventions, ds.ConventionVersion = "AMBER", "1.0"
+        ds.application, ds.program, ds.programVersion, ds.title = "AMBER", "pmemd", "22.0", "default_name"
+        ds.createDimension("frame", None)
+        ds.createDimension("spatial", 3)
+        ds.createDimension("atom", na)
+        ds.createDimension("cell_spatial", 3)
+        ds.createDimension("label", 5)
+        ds.createDimension("cell_angular", 3)
+        v = ds.createVariable("spatial", "S1", ("spatial",))
+        v[:] = np.array(list("xyz"), "S1")
+        tv = ds.createVariable("time", real, ("frame",))
+        tv.units = "picosecond"
+        cv = ds.createVariable("coordinates", real, ("frame", "atom", "spatial"))
+        cv.units = "angstrom"
+        if lengths_nm is not None:
+            v = ds.createVariable("cell_spatial", "S1", ("cell_spatial",))
+            v[:] = np.array(list("abc"), "S1")
+            v = ds.createVariable("cell_angular", "S1", ("cell_angular", "label"))
+            v[:] = np.array([list("alpha"), list("beta "), list("gamma")], "S1")
+            lv = ds.createVariable("cell_lengths", "f8", ("frame", "cell_spatial"))
+            lv.units = "angstrom"
+            av = ds.createVariable("cell_angles", "f8", ("frame", "cell_angular"))
+            av.units = "degree"
+        vv = ds.createVariable("velocities", "f4", ("frame", "atom", "spatial"))
+        vv.units = "angstrom/picosecond"
+        vv.scale_factor = np.float64(20.455)
+        vv.set_auto_maskandscale(False)
+        fv = ds.createVariable("forces", "f4", ("frame", "atom", "spatial"))
+        fv.units = "kilocalorie/mole/angstrom"
+        t0 = ds.createVariable("temp0", "f8", ("frame",))
+        t0.units = "kelvin"
+        for k in range(nf):
+            tv[k] = np.float32(times[k])
+            cv[k, :, :] = x[k].astype(np.float32).astype(real)
+            if lengths_nm is not None:
+                lv[k, :] = np.asarray(lengths_nm[k], np.float64) * 10.0
+                av[k, :] = np.asarray(angles[k], np.float64)
+            vv[k, :, :] = (x[k] * 0.5 + 1000.0 + k).astype(np.float32)
+            fv[k, :, :] = (-x[k] * 3.0 - 2000.0 - k).astype(np.float32)
+            t0[k] = 300.0 + k
+    finally:
+        ds.close()
+
+
+def h5_write_rich(path, traj):
+    """MDTraj HDF5 file carrying every optional per-frame field of the format (velocities, kineticEnergy, potentialEnergy,
+    temperature, lambda) next to coordinates / time / cell — what OpenMM's HDF5Reporter (which writes through this same class)
+    produces with velocities=True etc."""
+    from mdtraj.formats import HDF5TrajectoryFile
+    n = traj.n_frames
+    fr = np.arange(n, dtype=np.float32)
+    with HDF5TrajectoryFile(path, "w") as f:
+        for k in range(n):  # one frame per call, the way a reporter does it
+            f.write(coordinates=traj.xyz[k], time=traj.time[k],
+                    cell_lengths=None if traj.unitcell_lengths is None else traj.unitcell_lengths[k],
+                    cell_angles=None if traj.unitcell_angles is None else traj.unitcell_angles[k],
+                    velocities=traj.xyz[k] * 0.5 + 1000.0 + k, kineticEnergy=fr[k] * 2.0 + 7.0, potentialEnergy=-fr[k] * 3.0 - 11.0,
+                    temperature=300.0 + fr[k], alchemicalLambda=fr[k] / max(n, 1))
+        f.topology = traj.topology
+
+
+def gro_write_gromacs(path, xyz_nm, times=None, lengths_nm=None, velocities=True):
+    """.gro trajectory as GROMACS (trjconv / mdrun -c) writes it: title 'name t= <time> step= <n>' (or no time at all), right-
+    aligned atom count, '%8.3f' positions followed by '%8.4f' velocities, and a box line of only THREE numbers for a
+    rectangular box (mdtraj's own writer always writes nine and never velocities)."""
+    x = np.asarray(xyz_nm, np.float64)
+    nf, na = x.shape[:2]
+    names = ["CA", "N", "O"]
+    with open(path, "w") as f:
+        for k in range(nf):
+            if times is not None:
+                f.write("Protein in water t= %10.5f step= %d\n" % (float(times[k]), 500 * k))
+            else:
+                f.write("Protein in water, frames that identify themselves\n")
+            f.write("%5d\n" % na)
+            for a in range(na):
+                line = "%5d%-5s%5s%5d%8.3f%8.3f%8.3f" % (a // 3 + 1, "ALA", names[a % 3], a + 1, x[k, a, 0], x[k, a, 1], x[k, a, 2])
+                if velocities:
+                    line += "%8.4f%8.4f%8.4f" % (0.1 * a + 500.0, -0.5 - k, 0.0301)
+                f.write(line + "\n")
+            L = (0.0, 0.0, 0.0) if lengths_nm is None else lengths_nm[k]
+            f.write("%10.5f%10.5f%10.5f\n" % (L[0], L[1], L[2]))
+
+
+def pdb_write_foreign(path, xyz_nm, lengths_nm=None):
+    """Multi-model PDB as RCSB / other programs write it: HEADER/TITLE/REMARK block, CRYST1 with space group and Z, MODEL
+    records, an alternate location (A kept, B a decoy 5 A away) on one atom, ANISOU records after atoms, a second chain after
+    a TER record, HETATM records for the last residue, ENDMDL, then CONECT / MASTER / END.  12 atoms in every model."""
+    x = np.asarray(xyz_nm, np.float64) * 10.0
+    nf, na = x.shape[:2]
+    assert na == 12
+    names = [" CA ", " N  ", " O  "]
+    els = [" C", " N", " O"]
+    out = ["HEADER    HYDROLASE                               01-JAN-01   1XYZ              ",
+           "TITLE     FRAMES THAT IDENTIFY THEMSELVES                                       ",
+           "REMARK   2 RESOLUTION.    1.80 ANGSTROMS.                                       "]
+    if lengths_nm is not None:
+        L = np.asarray(lengths_nm[0], np.float64) * 10.0
+        out.append("CRYST1%9.3f%9.3f%9.3f%7.2f%7.2f%7.2f P 1           1" % (L[0], L[1], L[2], 90.0, 90.0, 90.0))
+    for k in range(nf):
+        out.append("MODEL     %4d" % (k + 1))
+        serial = 1
+        for a in range(na):
+            res = a // 3
+            chain = "A" if res < 2 else "B"
+            rec = "HETATM" if res == 3 else "ATOM  "
+            rname = "LIG" if res == 3 else "ALA"
+            alts = [" "]
+            if a == 4:
+                alts = ["A", "B"]
+            for alt in alts:
+                c = x[k, a] + (5.0 if alt == "B" else 0.0)
+                out.append("%s%5d %4s%1s%3s %1s%4d    %8.3f%8.3f%8.3f%6.2f%6.2f          %2s" % (
+                    rec, serial, names[a % 3], alt, rname, chain, res + 1, c[0], c[1], c[2], 0.5 if alt != " " else 1.0, 10.0 + a, els[a % 3]))
+                out.append("ANISOU%5d %4s%1s%3s %1s%4d  %7d%7d%7d%7d%7d%7d      %2s" % (
+                    serial, names[a % 3], alt, rname, chain, res + 1, 1000 + a, 1100, 1200, -10, 20, -30, els[a % 3]))
+                serial += 1
+            if a == 5:
+                out.append("TER   %5d      %3s %1s%4d" % (serial, "ALA", "A", 2))
+                serial += 1
+        out.append("ENDMDL")
+    out.append("CONECT   11   12   13")
+    out.append("MASTER        0    0    0    0    0    0    0    6   12    0    0    0")
+    out.append("END")
+    opener = gzip_open if str(path).endswith(".gz") else open
+    with opener(path, "wt") as f:
+        f.write("\n".join(s.ljust(80) for s in out) + "\n")
+
+
+def dcd_rewrite(src, dst, n_atoms, n_frames, big_endian=False, rec64=False, angles="as-is", ntitle=None):
+    """Re-emit an mdtraj-written DCD (little-endian, 4-byte record markers, cosines in the cell block) the way other writers /
+    platforms produce it: big-endian byte order (CHARMM / NAMD on big-endian machines, X-PLOR), 8-byte Fortran record markers
+    (CHARMM built with -i8), the unit-cell angle slots holding degrees (CHARMM before c25) instead of cosines, a title block
+    with another number of 80-character lines."""
+    raw = open(src, "rb").read()
+    assert _struct.unpack("<i", raw[:4])[0] == 84 and raw[4:8] == b"CORD"
+    e = ">" if big_endian else "<"
+    icntrl = list(_struct.unpack("<9i", raw[8:44])) + [_struct.unpack("<f", raw[44:48])[0]] + list(_struct.unpack("<10i", raw[48:88]))
+    has_cell = icntrl[10] != 0
+    pos = 92
+    tl = _struct.unpack("<i", raw[pos:pos + 4])[0]
+    nt = _struct.unpack("<i", raw[pos + 4:pos + 8])[0]
+    titles = [raw[pos + 8 + 80 * i:pos + 8 + 80 * (i + 1)] for i in range(nt)]
+    pos += 4 + tl + 4
+    assert _struct.unpack("<3i", raw[pos:pos + 12]) == (4, n_atoms, 4)
+    pos += 12
+    if ntitle is not None:
+        titles = [("REMARKS line %d written by another program" % i).encode().ljust(80) for i in range(ntitle)]
+
+    def rec(payload):
+        m = _struct.pack(e + ("q" if rec64 else "i"), len(payload))
+        return m + payload + m
+    out = [rec(b"CORD" + _struct.pack(e + "9i", *icntrl[:9]) + _struct.pack(e + "f", icntrl[9]) + _struct.pack(e + "10i", *icntrl[10:])),
+           rec(_struct.pack(e + "i", len(titles)) + b"".join(titles)), rec(_struct.pack(e + "i", n_atoms))]
+    block = 4 + 4 * n_atoms + 4
+    for k in range(n_frames):
+        if has_cell:
+            assert _struct.unpack("<i", raw[pos:pos + 4])[0] == 48
+            cell = np.frombuffer(raw[pos + 4:pos + 52], dtype="<f8").copy()
+            if angles == "degrees":
+                for j in (1, 3, 4):
+                    cell[j] = 90.0 if cell[j] == 0.0 else np.degrees(np.arccos(cell[j]))
+            out.append(rec(cell.astype(e + "f8").tobytes()))
+            pos += 56
+        for ax in range(3):
+            v = np.frombuffer(raw[pos + 4:pos + 4 + 4 * n_atoms], dtype="<f4")
+            out.append(rec(v.astype(e + "f4").tobytes()))
+            pos += block
+    assert pos == len(raw), (pos, len(raw))
+    with open(dst, "wb") as f:
+        f.write(b"".join(out))
+
+
+def trr_write_mixed(path, xyz_nm, box_nm=None, times=None):
+    """GROMACS .trr from a run with nstxout = nstvout/2 = nstfout/3-like output intervals: every frame holds positions, only
+    every 2nd also velocities, only every 3rd also forces — frames of DIFFERENT sizes in one file (single precision)."""
+    x = np.asarray(xyz_nm, np.float64)
+    nf, na = x.shape[:2]
+    out = []
+    for k in range(nf):
+        hv, hf = (k % 2 == 0), (k % 3 == 0)
+        hdr = _struct.pack(">3i", 1993, 13, 12) + b"GMX_trn_file"
+        sizes = [0, 0, 36 if box_nm is not None else 0, 0, 0, 0, 0, na * 12, na * 12 if hv else 0, na * 12 if hf else 0, na, k * 10, 0]
+        hdr += _struct.pack(">13i", *sizes)
+        out.append(hdr + np.array([float(times[k]) if times is not None else float(k), 0.0]).astype(">f4").tobytes())
+        if box_nm is not None:
+            out.append(np.asarray(box_nm[k], np.float64).astype(">f4").tobytes())
+        out.append(x[k].astype(">f4").tobytes())
+        if hv:
+            out.append((x[k] * 0.5 + 1000.0 + k).astype(">f4").tobytes())
+        if hf:
+            out.append((-x[k] * 3.0 - 2000.0 - k).astype(">f4").tobytes())
+    with open(path, "wb") as f:
+        f.write(b"".join(out))
+
+
+def mdcrd_retitle(path, title=b"", crlf=False):
+    """AMBER mdcrd with another title line (empty — sander writes whatever the user's title was, possibly nothing — or a long
+    one with numbers in it) and optionally CRLF line ends (file moved through a Windows machine)."""
+    lines = open(path, "rb").read().split(b"\n")
+    lines[0] = title
+    data = (b"\r\n" if crlf else b"\n").join(lines)
+    with open(path, "wb") as f:
+        f.write(data)
+
+
+def stk_write(path, dtr_dirs):
+    """Desmond .stk: a text file listing frameset directories, one per line."""
+    with open(path, "w") as f:
+        for d in dtr_dirs:
+            f.write(str(d) + "\n")
+
+
+def ident_traj_dense(n_frames, n_extra=588, cell="ortho", f0=0):
+    """12 self-identifying atoms followed by `n_extra` atoms packed within a few picometres of one point per frame: such
+    frames compress to ~1.3 bytes/atom in XTC, a third of what mdtraj's file-size model of the frame count assumes, so
+    reading to the end of the file needs several internal buffer chunks (the estimate falls short by more than the 1.5x
+    safety factor).  Returns the trajectory; the first 12 atoms identify (frame, atom) as usual."""
+    import mdtraj as md
+    base = ident_xyz(n_frames, 12, f0)
+    fr = (np.arange(n_frames) + f0).astype(np.float64)
+    centre = np.stack([fr % 40 + 0.5, -((fr % 40) / 2.0) - 0.5, (fr * 7) % 13 + 0.5], axis=-1)[:, None, :]
+    j = np.arange(n_extra)
+    off = np.stack([(j % 5) / 1000.0, ((j // 5) % 5) / 1000.0, ((j // 25) % 5) / 1000.0], axis=-1)[None, :, :]
+    xyz = np.concatenate([base.astype(np.float64), centre + off], axis=1).astype(np.float32)
+    t = md.Trajectory(xyz, ident_top(12 + n_extra))
+    fr_i = np.arange(n_frames) + f0
+    t.time = (fr_i * 2.0 + (fr_i % 3) * 0.5).astype(np.float32)
+    if cell == "ortho":
+        t.unitcell_lengths = (np.array([[60.0, 61.0, 62.0]]) + fr_i[:, None] * 0.125).astype(np.float32)
+        t.unitcell_angles = np.full((n_frames, 3), 90.0, np.float32)
+    return t
+
+
+WIDE_EXT = {"lammpstrj-ortho-vel": "lammpstrj", "lammpstrj-tric": "lammpstrj", "xyz-ext": "xyz", "xyz-ext.gz": "xyz.gz", "nc-amber": "nc", "nc-double": "nc",
+            "h5-rich": "h5", "gro-gromacs": "gro", "gro-notime": "gro", "pdb-foreign": "pdb", "pdb-foreign.gz": "pdb.gz", "dcd-be": "dcd",
+            "dcd-rec64": "dcd", "dcd-deg": "dcd", "trr-mixed": "trr", "mdcrd-crlf": "mdcrd", "dtr-clickme": "dtr", "stk": "stk", "arc": "arc",
+            "arc-nobox": "arc", "rst7": "rst7", "ncrst": "ncrst", "xtc-dense": "xtc", "hdf5": "hdf5", "netcdf": "netcdf", "ncdf": "ncdf", "crd": "crd"}
+
+
+def write_wide_class(fmt, path, t, n, na):
+    """Produce the file class `fmt` of WIDE_EXT from the self-identifying trajectory t (n frames, na atoms) at `path`;
+    returns the path a reader is to be given (differs from `path` for dtr-clickme)."""
+    if fmt in ("lammpstrj-ortho-vel", "lammpstrj-tric"):
+        lammpstrj_write_foreign(path, t.xyz, "ortho-vel" if fmt.endswith("vel") else "tric-shuffled")
+    elif fmt in ("xyz-ext", "xyz-ext.gz"):
+        xyz_write_extended(path, t.xyz)
+    elif fmt in ("nc-amber", "nc-double"):
+        nc_write_amber(path, t.xyz, t.time, t.unitcell_lengths, t.unitcell_angles, real="f8" if fmt == "nc-double" else "f4")
+    elif fmt == "h5-rich":
+        h5_write_rich(path, t)
+    elif fmt == "gro-gromacs":
+        gro_write_gromacs(path, t.xyz, t.time, t.unitcell_lengths, velocities=True)
+    elif fmt == "gro-notime":
+        gro_write_gromacs(path, t.xyz, None, None, velocities=False)
+    elif fmt in ("pdb-foreign", "pdb-foreign.gz"):
+        pdb_write_foreign(path, t.xyz, t.unitcell_lengths if fmt == "pdb-foreign" else None)
+    elif fmt in ("dcd-be", "dcd-rec64", "dcd-deg"):
+        t.save(path + ".le.dcd")
+        dcd_rewrite(path + ".le.dcd", path, na, n, **{"dcd-be": dict(big_endian=True), "dcd-rec64": dict(rec64=True, ntitle=1),
+                                                     "dcd-deg": dict(angles="degrees", ntitle=5)}[fmt])
+        os.unlink(path + ".le.dcd")
+    elif fmt == "trr-mixed":
+        trr_write_mixed(path, t.xyz, t.unitcell_vectors, t.time)
+    elif fmt == "mdcrd-crlf":
+        t.save(path)
+        mdcrd_retitle(path, b"trajectory of 12 atoms at 300.00 K, box  60.000  61.000  62.000", crlf=True)
+    elif fmt == "dtr-clickme":
+        t.save(path)
+        return os.path.join(path, "clickme.dtr")
+    elif fmt == "stk":
+        h = max(1, n // 2)   # two framesets listed in a .stk file (the second continues the first)
+        parts = []
+        for k, sl in enumerate((slice(0, h), slice(h, n))):
+            if t[sl].n_frames:
+                q = path[:-4] + f"_part{k}.dtr"
+                t[sl].save(q)
+                parts.append(q)
+        stk_write(path, parts)
+    elif fmt in ("arc", "arc-nobox"):
+        arc_write(path, t.xyz, box=(fmt == "arc"))
+    elif fmt == "hdf5":
+        t.save_hdf5(path)   # Trajectory.save has no '.hdf5' entry; the reader registers the alias
+    else:
+        t.save(path)        # aliases, restart files, dense xtc: mdtraj's own writer
+    return path
